@@ -1,6 +1,7 @@
 import os
 
 from ..runner import Harness, Spec
+from ..translate import go_translator
 
 # harness/c05/core_test.go is package-agnostic apart from its package clause; the profiles harness runs the same
 # core inside package xexporterhelper. Keep the committed copy in sync (own file, written only when it differs).
@@ -29,6 +30,10 @@ _sync_xcore()
 SPEC = Spec(
     pid="C05",
     lean_modules=["OtelVerif.Props.C05"],
+    # regenerated on every run: BackOffConfig / TimeoutConfig (structs, defaults, Validate), otlpexporter.shouldRetry as Lean
+    # DEFINITIONS compiled from the Go source; shape tables of the four OnError methods, the four partial-failure constructors,
+    # internal.Retryable's accessors and NewBaseExporter's sender chain. Props/C05.lean proves the model equal to them.
+    translators=[go_translator("gofunlean", "OtelVerif/Gen/RetryCfg.lean", args=["c05"])],
     harnesses=[
         Harness(name="retry", module="exporter", pkg="exporter/exporterhelper",
                 files={"zz_verif_c05_core_test.go": "c05/core_test.go", "zz_verif_c05_signals_test.go": "c05/signals_test.go"},
@@ -83,7 +88,9 @@ SPEC = Spec(
          "retry-profiles: the same core in package xexporterhelper driving NewProfilesExporter / xconsumererror.Profiles. "
          "otlp-grpc: otlpexporter.processError on every gRPC code x {no RetryInfo, 6 delays}: nil / permanent / plain / throttle(d). "
          "errs: random wrap/join error trees (depth<=5) classified by the real IsPermanent / IsShutdownErr / errors.As(throttleRetry) / "
-         "errors.As(consumererror.Logs|Traces|Metrics) (the signal under test rotates per case). validate: BackOffConfig.Validate + TimeoutConfig.Validate incl. rejected configs.",
+         "errors.As(consumererror.Logs|Traces|Metrics) (the signal under test rotates per case). validate: BackOffConfig.Validate + TimeoutConfig.Validate incl. rejected configs; "
+         "case 0 = NewDefaultBackOffConfig / NewDefaultTimeoutConfig against the definitions regenerated from the source (floats as exact fractions). "
+         "otlp-grpc additionally judges every status against the OTLP retryability table (Lean prop).",
     trusted_base=[
         "Lean 4.33.0 kernel; axioms per theorem listed under axioms_per_theorem (subset of propext, Classical.choice, Quot.sound)",
         "hand-written model of retrySender.Send + timeoutSender + cenkalti/backoff/v5 ExponentialBackOff (NextBackOff, incrementCurrentInterval) "
@@ -91,9 +98,20 @@ SPEC = Spec(
         "returned error class)",
         "float64 arithmetic of the back-off library is modelled over exact fractions; the harness keeps durations < 2^44 ns and multipliers "
         "with numerators < 128 where float64 products/quotients decide the same comparisons (checked by the differential)",
+        "LibLaw is now a THEOREM about the library's formula over exact fractions (C05_library_draw_satisfies_law: "
+        "trunc(min + random*(max-min+1)), random in [0,1)); what stays trusted is float64 vs exact arithmetic and that the pinned library "
+        "source is what runs",
         "the library's random draw is an input with the law LibLaw (interval*(1-rf)-1 <= drawn <= interval*(1+rf)+1); the driver evaluates "
         "that law (lawAlongB, proved equivalent to LawAlong) on every draw the real library produced for the script (learnt from a mirror "
         "ExponentialBackOff on the same seeded source) and fails the case with C05/backoff/library-draw-outside-law otherwise: sampled, not proved",
+        "translators/cmd/gofunlean (c05): BackOffConfig / TimeoutConfig (structs, defaults incl. the two constants read from the "
+        "cenkalti/backoff version config/configretry/go.mod requires, Validate) and otlpexporter.shouldRetry are compiled from the Go source "
+        "into Lean definitions on every run and the model is proved equal to them (C05_src_validate_backoff / _timeout / _grpc_retryable); "
+        "shape tables of the four OnError methods, the four partial-failure constructors, internal.Retryable and NewBaseExporter's sender "
+        "chain; statement skeletons (tracing / logging removed) of retrySender.Send / Shutdown, NewThrottleRetry, timeoutSender.Send, "
+        "experr, consumererror permanent, processError and of the library's NextBackOff / incrementCurrentInterval / "
+        "getRandomValueFromInterval pin the source the hand-written model was written from (C05_src_skeletons). gRPC code numbers are the "
+        "protocol's constants (table in the translator)",
         "Go runtime: select, timers, context, testing/synctest virtual clock",
     ],
     assumptions=[
